@@ -49,7 +49,7 @@ const (
 type item struct {
 	In    []byte `json:"in"`
 	Desc  string `json:"desc"`
-	Mode  string `json:"mode"`            // all | sei-direct | dependent
+	Mode  string `json:"mode"`            // all | sei-direct | dependent | sei-nal | sei-extract
 	Types []uint `json:"types,omitempty"` // sei-direct
 }
 
@@ -89,6 +89,7 @@ type probeResp struct {
 	Viol     []probeViol                 `json:"viol,omitempty"`
 	Seen     map[string]map[string]int64 `json:"seen,omitempty"`
 	Counts   map[string]int64            `json:"counts,omitempty"`
+	Maxes    map[string]int64            `json:"maxes,omitempty"`
 	Accepted []uint64                    `json:"accepted,omitempty"` // hashes of items some operation accepted
 	NOps     int64                       `json:"nops"`
 	Samples  []json.RawMessage           `json:"samples,omitempty"`
@@ -101,6 +102,7 @@ type sink interface {
 	Violation(key, what string, detail interface{})
 	Seen(category, value string)
 	Count(name string, n int64)
+	SetMax(name string, v int64)
 }
 
 type localSink struct {
@@ -146,6 +148,15 @@ func (s *localSink) Seen(cat, val string) {
 }
 
 func (s *localSink) Count(name string, n int64) { s.resp.Counts[name] += n }
+
+func (s *localSink) SetMax(name string, v int64) {
+	if s.resp.Maxes == nil {
+		s.resp.Maxes = map[string]int64{}
+	}
+	if old, ok := s.resp.Maxes[name]; !ok || v > old {
+		s.resp.Maxes[name] = v
+	}
+}
 
 // classifyPanic mirrors runner's vocabulary (the runner's helper is unexported).
 func classifyPanic(r interface{}, s string) string {
@@ -536,6 +547,8 @@ func serveChain(resp *probeResp, sk *localSink, st *seqState, ch *chainDetail, i
 			x.runDependent(codec)
 		case "sei-nal":
 			x.runSEINal()
+		case "sei-extract":
+			x.runSEIExtract()
 		default:
 			x.runOps()
 		}
